@@ -6,7 +6,7 @@ From Clemens Require Import Base.Res Base.Word Base.Bytes Search.Time Search.TT.
 From Clemens Require Import Pos.Types Att.Attacks Pos.Position Pos.Fen.
 From Clemens Require Import Eval.Eval Eval.SeeRef Search.Ordering Search.Negamax.
 From Clemens Require Import Uci.ParseGo Uci.Input Uci.Game.
-From Clemens Require Rules.Fide Rules.SpecFen Uci.Conc Search.GoInst C15Mirror.Mirror Rules.Abs C15Bound.Material.
+From Clemens Require Rules.Fide Rules.SpecFen Uci.Conc Search.GoInst C15Mirror.Mirror Rules.Abs C15Bound.Material Uci.Engine Uci.EngineInst.
 From ClemensGen Require Import GoConsts.
 Import ListNotations.
 
@@ -118,6 +118,7 @@ Extraction "clemens_model.ml"
   rook_attacks bishop_attacks queen_attacks rook_walk bishop_walk rook_mask bishop_mask
   knight_attacks king_attacks pawn_attacks pushes_by_square all_subsets magic_index
   popcount lsb bits
+  Uci.EngineInst.go_engine_init Uci.EngineInst.go_handle Uci.EngineInst.go_run Uci.EngineInst.go_render
   m_new_position_cmd parse_go parse_go_unrepaired event_text simple_token m_handle_line m_prepare_input
   m_score_moves sort_index visit_order m_search m_search_root m_negamax m_quiescence m_init_sst m_tt_init
   m_eval_raw m_eval_parts m_is_draw m_eval_cached m_eval_cached_unrepaired m_see m_see_ref m_contempt m_is_endgame
